@@ -501,7 +501,11 @@ func runC20(a *Analyzer, r *Results) {
 			hb := Field(cb, "SignedHeader")
 			sender := Field(cb, "Sender")
 			ok, why := signOK(fn.Name(), hb, Field(sender, "Signature"), Root(fn.Params[1].Name()))
-			if ok && Field(sender, "MemberId").Key() != Field(mf, "memberId").Key() {
+			sid := Field(sender, "MemberId")
+			// the member id is the factory's own (directly, or kept in a value field of the factory that groups the signing data)
+			own := sid.Key() == Field(mf, "memberId").Key() ||
+				(sid.Op == "field" && sid.Name == "memberId" && len(sid.Args) == 1 && sid.Args[0].Op == "field" && len(sid.Args[0].Args) == 1 && sid.Args[0].Args[0].Key() == mf.Key())
+			if ok && !own {
 				ok, why = false, "sender id is "+PP(Field(sender, "MemberId"))
 			}
 			if ok && Field(hb, "MessageType").Key() != k.ProtoConst(c.mtype).Key() {
@@ -535,8 +539,8 @@ func runC20(a *Analyzer, r *Results) {
 	}
 	okS := len(signers) > 0
 	for _, s := range signers {
-		if !strings.Contains(s, "messagesfactory.MessageFactory") {
-			okS = false
+		if !strings.Contains(s, "services/messagesfactory.") {
+			okS = false // (any function or method of the factory's package: a signer value type of the factory counts)
 		}
 	}
 	r.Check("S0.sign", props("C10", "C20"), "consensus messages are signed only inside the message factory", "SignConsensusMessage", "-", okS, fmtf("callers: %v", dedupSorted(signers)), "W")
